@@ -307,11 +307,15 @@ def r3_reset_complete(ctx, rid: str = "C15.R3") -> None:
                 hm = prog.lookup_method(pq, hc.value.func.attr)
                 if hm is None:
                     continue
-                hst = [x for x in hm.node.body if isinstance(x, (ast.Assign, ast.AnnAssign)) and any(
+                hst = [x for x in walk_no_nested(hm.node) if isinstance(x, (ast.Assign, ast.AnnAssign)) and any(
                     isinstance(t, ast.Attribute) and t.attr == name and isinstance(t.value, ast.Name) and t.value.id == "self"
-                    for t in (x.targets if isinstance(x, ast.Assign) else [x.target]))]  # top-level statements of the helper only: unconditional
-                if hst and _is_fresh(prog, hm, hst[0].value) and all(cfg.must_pass(ln, cfg.nodes_of(hc)) for ln in loop_nodes):
-                    helper_hit = (hm, hst[0])
+                    for t in (x.targets if isinstance(x, ast.Assign) else [x.target]))]
+                # every path through the helper stores a fresh object (helper's own CFG), and the last store on each path is fresh
+                hcfg = cfg_of(hm)
+                hfresh = [x for x in hst if getattr(x, "value", None) is not None and _is_fresh(prog, hm, x.value)]
+                hnodes = [nid for x in hfresh for nid in hcfg.nodes_of(x)]
+                if hst and len(hfresh) == len(hst) and hnodes and hcfg.must_pass(hcfg.exit, hnodes) and all(cfg.must_pass(ln, cfg.nodes_of(hc)) for ln in loop_nodes):
+                    helper_hit = (hm, hfresh[0])
         if nodes and all(cfg.must_pass(ln, nodes) for ln in loop_nodes):
             r.ok(rid, ap.qual, f"self.{name} = {unparse(fresh[0].value)} before the item loop", f"{ap.module.relpath}:{fresh[0].lineno}")
         elif helper_hit is not None:
